@@ -25,7 +25,9 @@
 #include <constr_SET_OF.h>
 #include <INTEGER.h>
 #include <per_support.h>
+#ifndef ASN_DISABLE_OER_SUPPORT
 #include <oer_support.h>
+#endif
 
 /* constr_SET.h may be absent from the emitted file set: repeat the layout here
  * under a private name; sizes are cross-checked at run time when SET is linked */
@@ -101,9 +103,16 @@ static void pper(const asn_per_constraints_t *c) {
     printf(" %s %s))", c->value2code ? "true" : "false", c->code2value ? "true" : "false");
 }
 
+static int g_bad;   /* anomalies seen while printing the current descriptor */
+
 static void poer(const asn_oer_constraints_t *c) {
     if(!c) { printf("None"); return; }
+#ifdef ASN_DISABLE_OER_SUPPORT
+    g_bad |= 32768;    /* OER support compiled out, yet a constraint record is referenced */
+    printf("None");
+#else
     printf("(Some (mkO %u %u ", c->value.width, c->value.positive); pz((long)c->size); printf("))");
+#endif
 }
 
 static void pt2e(const asn_TYPE_tag2member_t *t, unsigned n, int *bad) {
@@ -131,6 +140,7 @@ static void dump(int i) {
     unsigned e;
     int bad = 0;
     unsigned ne = td->elements_count;
+    g_bad = 0;
     printf("#D %d kind=%s name=%s xml=%s\n", i, k, td->name ? td->name : "(null)", td->xml_tag ? td->xml_tag : "(null)");
     if(!td->name) bad |= 4;
     if(ne && !td->elements) { bad |= 8; ne = 0; }
@@ -220,7 +230,7 @@ static void dump(int i) {
     } else {
         printf("%s", td->specifics ? "SOther" : "SNone");
     }
-    printf(" %d)\n", bad);
+    printf(" %d)\n", bad | g_bad);
 }
 
 int main(void) {
